@@ -277,7 +277,11 @@ Definition opt_emplace (T : ty) (s : var) (v : Z) : res var := emplace (oalts T)
    temporary optional (optional(U&&)) which is move-assigned *)
 Definition opt_assign_value (T : ty) (s : var) (src : ty) (v : Z) : res var :=
   let v' := conv src T v in
-  if negb (is_scalar T) && negb (ty_eqb T src) then opt_emplace T s v'
+  if negb (is_scalar T) && negb (ty_eqb T src) then
+    (* has_value() ? **this = forward<U>(value) : emplace(forward<U>(value))   (fix d847992: the argument
+       is read while the contained value is still alive) *)
+    (if has_value s then rbind (opt_deref s) (fun _ => Ok {| idx := idx s; val := v' |})
+     else opt_emplace T s v')
   else assign_temp (oalts T) s (replace 1 v').
 
 (* optional<T>::operator=(optional<U> const&): emplace(value of other) or reset() *)
@@ -351,6 +355,12 @@ Definition ostep (T U : ty) (s : ostate) (o : oop) : res ostate :=
   | OCtorValueU t v =>
     let '(x, y) := pick t ab in
     rbind (assign_temp al x (replace 1 (conv U T v))) (fun x' => Ok (put t x' y, c))
+  | OOwnMember t =>
+    (* if (x) x = x->v : operator-> (get_if<1>), the member is an int lvalue inside the contained object *)
+    let '(x, y) := pick t ab in
+    if has_value x then
+      rbind (opt_deref x) (fun v => rbind (opt_assign_value T x TInt v) (fun x' => Ok (put t x' y, c)))
+    else Ok s
   end.
 
 Fixpoint orun (T U : ty) (s : ostate) (ops : list oop) : res ostate :=
